@@ -190,9 +190,28 @@ class _Spell(ast.NodeTransformer):
     def visit_Subscript(self, n):
         self.generic_visit(n)
         # a[np.nonzero(mask)] is a[mask] (load and store) when mask is a comparison, i.e. a boolean array of a's shape
+        # np.nonzero(np.ravel(X))[0] is np.flatnonzero(X)
+        if isinstance(n.ctx, ast.Load) and isinstance(n.slice, ast.Constant) and n.slice.value == 0 and isinstance(n.value, ast.Call) and _dotted(n.value.func) in ("np.nonzero", "numpy.nonzero") \
+                and len(n.value.args) == 1 and isinstance(n.value.args[0], ast.Call) and _dotted(n.value.args[0].func) in ("np.ravel", "numpy.ravel") and len(n.value.args[0].args) == 1:
+            return ast.copy_location(ast.Call(func=ast.Attribute(value=ast.Name(id="np", ctx=ast.Load()), attr="flatnonzero", ctx=ast.Load()), args=[n.value.args[0].args[0]], keywords=[]), n)
+        # np.ravel(X)[a:b] holds the same values as X.flat[a:b]  (both C order)
+        if isinstance(n.ctx, ast.Load) and isinstance(n.slice, ast.Slice) and isinstance(n.value, ast.Call) and _dotted(n.value.func) in ("np.ravel", "numpy.ravel") \
+                and len(n.value.args) == 1 and not n.value.keywords:
+            n.value = ast.copy_location(ast.Attribute(value=n.value.args[0], attr="flat", ctx=ast.Load()), n.value)
+        if isinstance(n.ctx, ast.Load) and isinstance(n.slice, ast.Slice) and isinstance(n.value, ast.Call) and isinstance(n.value.func, ast.Attribute) and n.value.func.attr == "ravel" \
+                and not n.value.args and not n.value.keywords and not _is_np(n.value.func):
+            n.value = ast.copy_location(ast.Attribute(value=n.value.func.value, attr="flat", ctx=ast.Load()), n.value)
         sl = n.slice
         if isinstance(sl, ast.Call) and _dotted(sl.func) in ("np.nonzero", "numpy.nonzero") and len(sl.args) == 1 and isinstance(sl.args[0], ast.Compare):
             n.slice = sl.args[0]
+        return n
+
+    def visit_Expr(self, n):
+        self.generic_visit(n)
+        # np.putmask(a, mask, v)  ->  a[mask] = v      (scalar v; a is modified in place either way)
+        c = n.value
+        if isinstance(c, ast.Call) and _dotted(c.func) in ("np.putmask", "numpy.putmask") and len(c.args) == 3 and not c.keywords and isinstance(c.args[2], (ast.Name, ast.Constant, ast.Attribute)):
+            return ast.copy_location(ast.Assign(targets=[ast.Subscript(value=c.args[0], slice=c.args[1], ctx=ast.Store())], value=c.args[2]), n)
         return n
 
     def visit_IfExp(self, n):
@@ -245,6 +264,11 @@ class _Spell(ast.NodeTransformer):
                 return ast.copy_location(ast.BinOp(left=n.args[0], op=_NP_BIN[name](), right=n.args[1]), n)
             if name in _NP_CMP and len(n.args) == 2 and not n.keywords:
                 return ast.copy_location(ast.Compare(left=n.args[0], ops=[_NP_CMP[name]()], comparators=[n.args[1]]), n)
+            if name == "delete" and len(n.args) == 2 and not n.keywords and isinstance(n.args[1], ast.Constant) and n.args[1].value == 0 \
+                    and isinstance(n.args[0], ast.Call) and _dotted(n.args[0].func) in ("np.ravel", "numpy.ravel") and len(n.args[0].args) == 1:
+                # np.delete(np.ravel(X), 0) is X.flat[1:]
+                return ast.copy_location(ast.Subscript(value=ast.Attribute(value=n.args[0].args[0], attr="flat", ctx=ast.Load()),
+                                                       slice=ast.Slice(lower=ast.Constant(value=1), upper=None, step=None), ctx=ast.Load()), n)
             if name == "negative" and len(n.args) == 1 and not n.keywords:
                 return ast.copy_location(ast.UnaryOp(op=ast.USub(), operand=n.args[0]), n)
             if name == "flip" and len(n.args) == 1 and not n.keywords:
